@@ -128,11 +128,12 @@ def run_histories(_):
                 from env import exc_site
 
                 r.violation(f"C13/history/FlowHistory/raises/{type(e).__name__}/{exc_site(e)}/n={ntrain}", repr(e)[:200], case)
-        for npop, nser in itertools.product((0, 1, 3), (0, 2)):
+        # 12 populations: more than 10 members, so that lexicographic vs numeric member order matters
+        for npop, nser in itertools.product((0, 1, 3, 12), (0, 2)):
             case = {"part": "history", "class": "SMCHistory", "populations": npop, "series_len": nser}
             r.case(explorer.digest(case), nontrivial=npop > 0 or nser > 0)
             pops = [SMCSamples(x=np.array([[0.1 * k, 1.0], [0.2, 2.0 + k]]), log_likelihood=np.array([-1.0, -2.0 - k]),
-                               log_prior=np.array([-0.5, -0.5]), log_q=np.array([-0.1 * k, -0.2]), beta=0.25 * k, xp=xp, parameters=["a", "b"])
+                               log_prior=np.array([-0.5, -0.5]), log_q=np.array([-0.1 * k, -0.2]), beta=k / 16.0, xp=xp, parameters=["a", "b"])
                     for k in range(npop)]
             h = SMCHistory(log_norm_ratio=[-0.5 * i for i in range(nser)], log_norm_ratio_var=[0.01 * (i + 1) for i in range(nser)],
                            beta=[0.5 * (i + 1) for i in range(nser)], ess=[3.0 + i for i in range(nser)], ess_target=[2.0 + i for i in range(nser)],
